@@ -24,6 +24,14 @@
 (*                                                        (O1-O4, O5)      *)
 (*   follow(k)  crash(k) after ANOTHER operation (import / copy of the     *)
 (*              image concerned) was run on it            (O1-O4, O5)      *)
+(*   fault(k)   the directory a process leaves that was interrupted        *)
+(*              WITHOUT dying: mutating call k returned an error and the   *)
+(*              process went on through its error path    (O1-O4; O5 when  *)
+(*              it reported success); fretry(k): the operation repeated on *)
+(*              that directory                            (O1-O4, O6)      *)
+(*   (an operation whose context is cancelled / whose source connection    *)
+(*   fails at request k is an ordinary trace: its crash states are crash   *)
+(*   states, its end is judged O1-O4 and, when it reported success, O5)    *)
 (* The statement, clause by clause:                                        *)
 (*   O1 every file stored under a digest name has that digest              *)
 (*   O2 the marker and the index are complete JSON and the layout is       *)
@@ -101,7 +109,7 @@ GoalChecks(e, o) ==
   LET cur == Tab(e.tag_t, e.tag_d)
       res == Tab(e.res_t, e.res_d)
       Tagged(t, x) == t \in DOMAIN cur /\ cur[t] = x /\ t \in DOMAIN res /\ res[t] = x
-      puts == {"put_tag", "put_index", "put_ref", "copy", "copy_ref", "import", "retag"}
+      puts == {"put_tag", "put_index", "put_ref", "copy", "rcopy", "copy_ref", "import", "retag"}
   IN << <<op.kind \in puts /\ ~Tagged(op.optag, op.opobj), o \o "-tag">>,
         <<op.kind \in {"put_digest", "put_refd"} /\ (op.opobj \notin Range(e.untagged) \/ e.has # 1), o \o "-entry">>,
         <<op.kind \in {"put_child", "blob_put"} /\ e.has # 1, o \o "-file">>,
@@ -137,7 +145,10 @@ PRetry(e) ==
 \* uninterrupted operation returned success (O5); e.second = 1: this process WAS the repetition of an
 \* interrupted operation (its own crash states are states after a second crash), so its end is judged as O6
 PEnd(e) ==
-  /\ bad' = Failing(<< <<e.n # k, "seq">> >> \o StateChecks(e, TRUE, estI) \o FreshChecks(e, TRUE, estI)
+  \* an operation that reported an error (bad content, cancelled context before anything was written) need not have
+  \* created a layout where there was none; one that reported success or is a repetition must leave a marker
+  /\ bad' = Failing(<< <<e.n # k, "seq">> >> \o StateChecks(e, estM \/ e.ok = 1 \/ e.second = 1, estI)
+                    \o FreshChecks(e, estM \/ e.ok = 1 \/ e.second = 1, estI)
                     \o (IF e.second = 1 THEN GoalChecks(e, "O6")
                         ELSE IF e.ok = 1 THEN GoalChecks(e, "O5") ELSE << >>))     \* O5 speaks of operations that returned success
   /\ UNCHANGED <<pre, tgt, op, estM, estI, k>>
@@ -157,6 +168,18 @@ PFollow(e) ==
   IN /\ bad' = Failing(<< <<e.k # k, "seq">> >> \o StateChecksX(e, em, ei, X) \o FreshChecksX(e, em, ei, X)
                        \o << <<e.ok = 1 /\ ~tagged, "O5-follow-tag">> >>)
      /\ UNCHANGED <<pre, tgt, op, estM, estI, k>>
+
+\* INTERRUPTION WITHOUT DEATH: the k-th mutating system call returned an error (disk full, file size limit,
+\* descriptor table full, permission, I/O error) or the caller's context was cancelled / the connection to the
+\* source failed, and the writing process LIVED ON through its error path and returned (e.ok = 1: it even reported
+\* success).  Everything that process did after the error it might also not have done (it can die at any
+\* instant of its error path), so the directory it leaves is judged exactly like a crash state by both observers
+\* (O1-O4); when it returned success the operation must be fully visible (O5).  The repetition of the operation by
+\* a new process on that directory (event "fretry") is PRetry: O1-O4 and O6.
+PFault(e) ==
+  /\ bad' = Failing(<< <<e.k # k, "seq">> >> \o StateChecks(e, estM, estI) \o FreshChecks(e, estM, estI)
+                    \o (IF e.ok = 1 THEN GoalChecks(e, "O5") ELSE << >>))
+  /\ UNCHANGED <<pre, tgt, op, estM, estI, k>>
 
 PUnknown == bad' = <<"unknown-event">> /\ UNCHANGED <<pre, tgt, op, estM, estI, k>>
 
